@@ -1,2 +1,2 @@
 fn main() {}
-// 6a7483f1
+// bf86d7c6
